@@ -215,3 +215,89 @@ func c12Unescape(c *Ctx) {
 	})
 	c.check(full, "unescapeData/returns-when-full", c.pos(f.Pos()), "the decoder returns as soon as the output buffer is full", "the decoder does not stop when the output buffer is full (index out of range)")
 }
+
+// c12NilableResults: a function of this package that can return nil for a pointer / interface result WITHOUT reporting
+// an error (nil is a normal outcome: "no listener", "no session detected") obliges its callers: the result is
+// dereferenced / invoked only on the non-nil edge of a test. The same holds for the result of a tunnel connector
+// (a caller-supplied func(int) net.Conn that returns nil when it cannot connect).
+func c12NilableResults(c *Ctx) {
+	nilable := map[*ssa.Function][]int{}
+	for _, f := range c.AllFns {
+		if !c.inPkg(f) {
+			continue
+		}
+		res := f.Signature.Results()
+		ei := errIndex(f.Signature)
+		for i := 0; i < res.Len(); i++ {
+			if i == ei {
+				continue
+			}
+			switch res.At(i).Type().Underlying().(type) {
+			case *types.Pointer, *types.Interface:
+			default:
+				continue
+			}
+			can := false
+			eachInstr(f, func(in ssa.Instruction) {
+				r, ok := in.(*ssa.Return)
+				if !ok || i >= len(r.Results) {
+					return
+				}
+				if isNilConst(retVal(r, i)) && (ei < 0 || isNilConst(retVal(r, ei))) {
+					can = true
+				}
+			})
+			if can {
+				nilable[f] = append(nilable[f], i)
+			}
+		}
+	}
+	nSites, nUses := 0, 0
+	checkUses := func(fname string, v ssa.Value, what string) {
+		for _, r := range referrersOf(v) {
+			if derefOperand(r) != v {
+				continue
+			}
+			nUses++
+			_, nonNil := factNil(factsAt(r.Block()), v)
+			key := fmt.Sprintf("%s/%s.used-unchecked", fname, what)
+			if nonNil {
+				c.ok(fname+"/"+what+".checked", c.ipos(r), "the possibly-nil result is used on the non-nil edge of its test")
+			} else {
+				c.bad(key, c.ipos(r), "a result that can be nil without an error ("+what+") is dereferenced / invoked without a nil test")
+			}
+		}
+	}
+	for _, f := range c.AllFns {
+		if !c.inPkg(f) {
+			continue
+		}
+		fname := c.fnName(f)
+		eachInstr(f, func(in ssa.Instruction) {
+			call, ok := in.(*ssa.Call)
+			if !ok {
+				return
+			}
+			if callee := call.Call.StaticCallee(); callee != nil {
+				for _, i := range nilable[callee] {
+					nSites++
+					var v ssa.Value = call
+					if callee.Signature.Results().Len() > 1 {
+						v = extractOf(call, i)
+					}
+					if v != nil {
+						checkUses(fname, v, "result of "+c.fnName(callee))
+					}
+				}
+				return
+			}
+			// a tunnel connector: func(int) net.Conn held in a variable / field
+			if sig, ok := call.Call.Value.Type().Underlying().(*types.Signature); ok && !call.Call.IsInvoke() && sig.Params().Len() == 1 && sig.Results().Len() == 1 && sig.Results().At(0).Type().String() == "net.Conn" {
+				nSites++
+				checkUses(fname, call, "connector result")
+			}
+		})
+	}
+	c.sites += nSites
+	c.check(nSites >= 5 && nUses >= 3, "nilable-results/sites", "", fmt.Sprintf("%d call sites of functions that may return nil without error, %d direct uses, all on the non-nil edge", nSites, nUses), fmt.Sprintf("only %d call sites / %d uses of nil-able results found", nSites, nUses))
+}
